@@ -9,8 +9,9 @@
            17 k base min max  omax minlevel maxlevel
               st nmajor major.. nminor minor..                      Ticks(o)      (st 0 ok, 2 panic)
               nlev { level count st nticks tick.. }*                CountTicks / TicksAtLevel
-              st nmin nmax map(nmin) map(nmax)  st nmin2 nmax2      Nice(o) once (then Map of the new ends), twice
-              st nmajor' major'..                                   Ticks(o) after Nice(o)
+              nomax nminlevel nmaxlevel                             the options o' of Nice and of the calls after it
+              st nmin nmax map(nmin) map(nmax)  st nmin2 nmax2      Nice(o') once (then Map of the new ends), twice
+              st nmajor' major'..                                   Ticks(o') after Nice(o')
 
    Floor/ceil decisions within rounding distance of their threshold are "borderline"
    (DESIGN 4.5).  Every group of observables is first compared with the exact model (code 0).
@@ -24,7 +25,9 @@
      10 Ticks(o)   20 CountTicks/TicksAtLevel per level (and CountTicks = len TicksAtLevel)
      21 the observed CountTicks values are non-increasing in the level
      30 Nice(o)    35 Nice never shrinks the domain, new ends finite (observed values, every Max)
-     36 Ticks(o) after Nice on the same object = the model's Ticks on the OBSERVED niced domain
+     (Nice and the calls after it use the options o' recorded in the line; o' = o except where o
+     reaches levels whose spacing overflows float64)
+     36 Ticks(o') after Nice on the same object = the model's Ticks on the OBSERVED niced domain
      37 second Nice(o) = the model's Nice on the observed niced domain (every Max)
      40 idempotent (Max >= 3)   41 first/last major tick after Nice are the new ends (Max >= 3)
      43 Map(new Min) = 0, Map(new Max) = 1
@@ -92,14 +95,16 @@ Definition p_lev : parser levobs := do l <- pZ; do c <- pZ; do st <- pZ; do t <-
 Record scobs := mkSc {
   so_st : Z; so_major : list xreal; so_minor : list xreal;
   so_levels : list levobs;
+  so_no : tickopts;
   so_nst : Z; so_nmin : xreal; so_nmax : xreal; so_map0 : xreal; so_map1 : xreal;
   so_nst2 : Z; so_nmin2 : xreal; so_nmax2 : xreal;
   so_st3 : Z; so_major3 : list xreal }.
 Definition p_scobs : parser scobs :=
   do st <- pZ; do ma <- plist pX; do mi <- plist pX; do lv <- plist p_lev;
+  do nomax <- pZ; do nminl <- pZ; do nmaxl <- pZ;
   do nst <- pZ; do a <- pX; do b <- pX; do m0 <- pX; do m1 <- pX; do nst2 <- pZ; do a2 <- pX; do b2 <- pX;
   do st3 <- pZ; do ma3 <- plist pX;
-  pret (mkSc st ma mi lv nst a b m0 m1 nst2 a2 b2 st3 ma3).
+  pret (mkSc st ma mi lv (mkOpts nomax nminl nmaxl) nst a b m0 m1 nst2 a2 b2 st3 ma3).
 
 (* a scale case: inputs and observations *)
 Record sccase := mkCase { sc_base : Z; sc_mn : Q; sc_mx : Q; sc_o : tickopts; sc_ob : scobs }.
@@ -272,6 +277,7 @@ Definition lin_amb_level (base eb : Z) (mn mx : Q) (roundOut : bool) (level : Z)
 Definition judge_linear (c : sccase) : list Z :=
   let base := sc_base c in let mn := sc_mn c in let mx := sc_mx c in let o := sc_o c in let ob := sc_ob c in
   let omax := o_max o in
+  let no := so_no ob in let nomax := o_max no in
   let w := Qabs (mx - mn) in
   let w := if Qeqb w 0 then 1 else w in
   let tolv := fun v : Q => e9 * Qabs v + e9 * w in
@@ -285,7 +291,7 @@ Definition judge_linear (c : sccase) : list Z :=
         [ (law (if (omax <=? 0)%Z || degenerate then (so_st ob =? 0)%Z else (so_st ob =? 2)%Z) false, 1%Z);
           (law (so_nst ob =? 2)%Z false, 2%Z);
           (law (so_nst2 ob =? 2)%Z false, 3%Z);
-          (law (if (omax <=? 0)%Z then (so_st3 ob =? 0)%Z else (so_st3 ob =? 2)%Z) false, 4%Z) ]
+          (law (if (nomax <=? 0)%Z then (so_st3 ob =? 0)%Z else (so_st3 ob =? 2)%Z) false, 4%Z) ]
   | Some eb =>
       let '(a, b) := lin_order mn mx in
       let r := if degenerate then FL_fail else lin_search o base eb a b false in
@@ -299,7 +305,7 @@ Definition judge_linear (c : sccase) : list Z :=
       let g21 := law (counts_noninc (so_levels ob)) (1 <=? g20)%Z in
       (* Nice *)
       let '(na, nb) := lin_start mn mx in
-      let rn := lin_search o base eb na nb true in
+      let rn := lin_search no base eb na nb true in
       let '(x, y) := lin_nice_from base eb na nb rn in
       let changed := negb (Qeqb x na && Qeqb y nb) in
       let found := match rn with FL_ok _ => true | _ => false end in
@@ -316,34 +322,34 @@ Definition judge_linear (c : sccase) : list Z :=
       match so_nmin ob, so_nmax ob with
       | XFin ao, XFin bo =>
           let g30 := grp ((so_nst ob =? 0)%Z && within (tolv x) x ao && within (tolv y) y bo)
-                         (fun _ => (so_nst ob =? 0)%Z && lin_nice_adm o base eb na nb tolv rn ao bo) in
+                         (fun _ => (so_nst ob =? 0)%Z && lin_nice_adm no base eb na nb tolv rn ao bo) in
           (* on observed values: the domain never shrinks *)
           let g35 := law (Qleb ao a && Qleb b bo) false in
           (* the object after Nice holds [ao, bo]: Ticks(o) on it, and Nice(o) once more *)
           let deg3 := Qeqb ao bo in
           let '(a3, b3) := lin_order ao bo in
-          let r3 := if deg3 then FL_fail else lin_search o base eb a3 b3 false in
-          let g36 := grp (ticks_exact (lin_ticks_from base eb ao bo o r3) (so_st3 ob) tolv (so_major3 ob) None)
-                         (fun _ => negb deg3 && (so_st3 ob =? 0)%Z && lin_ticks_adm o base eb a3 b3 tolv r3 (so_major3 ob) None) in
+          let r3 := if deg3 then FL_fail else lin_search no base eb a3 b3 false in
+          let g36 := grp (ticks_exact (lin_ticks_from base eb ao bo no r3) (so_st3 ob) tolv (so_major3 ob) None)
+                         (fun _ => negb deg3 && (so_st3 ob =? 0)%Z && lin_ticks_adm no base eb a3 b3 tolv r3 (so_major3 ob) None) in
           let '(na3, nb3) := lin_start ao bo in
-          let rn3 := lin_search o base eb na3 nb3 true in
+          let rn3 := lin_search no base eb na3 nb3 true in
           let '(x3, y3) := lin_nice_from base eb na3 nb3 rn3 in
           let g37 := grp ((so_nst2 ob =? 0)%Z && xwithin (tolv x3) (XFin x3) (so_nmin2 ob) && xwithin (tolv y3) (XFin y3) (so_nmax2 ob))
                          (fun _ => (so_nst2 ob =? 0)%Z &&
                                    match so_nmin2 ob, so_nmax2 ob with
-                                   | XFin a2, XFin b2 => lin_nice_adm o base eb na3 nb3 tolv rn3 a2 b2
+                                   | XFin a2, XFin b2 => lin_nice_adm no base eb na3 nb3 tolv rn3 a2 b2
                                    | _, _ => false end) in
           (* laws on the observed values (Max >= 3); a borderline Nice / Ticks-after-Nice makes them borderline *)
           let bl := (1 <=? g30)%Z || (1 <=? g36)%Z || (1 <=? g37)%Z in
-          let g40 := law ((omax <? 3)%Z ||
+          let g40 := law ((nomax <? 3)%Z ||
                           ((so_nst2 ob =? 0)%Z && xwithin (tolv ao) (XFin ao) (so_nmin2 ob) && xwithin (tolv bo) (XFin bo) (so_nmax2 ob))) bl in
-          let g41 := law ((omax <? 3)%Z || negb found ||
+          let g41 := law ((nomax <? 3)%Z || negb found ||
                           match first_last (so_major3 ob) with
                           | Some (f, l) => xwithin (tolv ao) (XFin ao) f && xwithin (tolv bo) (XFin bo) l
                           | None => false
                           end) bl in
           let g43 := law (Qeqb ao bo || (xwithin e12 (XFin 0) (so_map0 ob) && xwithin e12 (XFin 1) (so_map1 ob))) false in
-          let g45 := law ((omax <? 3)%Z || negb found ||
+          let g45 := law ((nomax <? 3)%Z || negb found ||
                           match first_two (so_major3 ob), last_two (so_major3 ob) with
                           | Some (t0, t1), Some (u0, u1) =>
                               Qleb (na - ao) (t1 - t0 + tolv ao) && Qleb (bo - nb) (u1 - u0 + tolv bo)
@@ -479,12 +485,13 @@ Definition log_law45 (neg : bool) (emin emax a' b' : Q) (major3 : list xreal) : 
 Definition judge_log (c : sccase) : list Z :=
   let base := sc_base c in let mn := sc_mn c in let mx := sc_mx c in let o := sc_o c in let ob := sc_ob c in
   let omax := o_max o in
+  let no := so_no ob in let nomax := o_max no in
   let tolv := fun v : Q => e9 * Qabs v in
   let '(neg, emin, emax) := log_fold mn mx in
   let e := log_exps base emin emax in
   let degenerate := Qeqb mn mx in
   let r := if degenerate then FL_fail else log_search o e false in
-  let rn := if degenerate then FL_fail else log_search o e true in
+  let rn := if degenerate then FL_fail else log_search no e true in
   let found := match rn with FL_ok _ => true | _ => false end in
   let '(f0, l0) := log_first_last e true 0 in
   let uses_minor := match r with FL_ok l => (l <=? 0)%Z | _ => false end in
@@ -513,7 +520,7 @@ Definition judge_log (c : sccase) : list Z :=
   | XFin ao, XFin bo =>
       let g30 := grp ((so_nst ob =? 0)%Z && within (tolv x) x ao && within (tolv y) y bo)
                      (fun u => negb degenerate && (so_nst ob =? 0)%Z &&
-                               existsb (fun e' => let '(x', y') := log_nice_from base mn mx e' neg emin emax (log_search o e' true) in
+                               existsb (fun e' => let '(x', y') := log_nice_from base mn mx e' neg emin emax (log_search no e' true) in
                                                   within (tolv x') x' ao && within (tolv y') y' bo) (adm u)) in
       let g35 := law (Qleb ao mn && Qleb mx bo) false in
       if negb (Qleb ao bo && Qltb 0 (ao * bo)) then conclude tag [(g10, 10%Z); (g20, 20%Z); (g21, 21%Z); (g30, 30%Z); (g35, 35%Z); (2%Z, 42%Z)] else
@@ -521,30 +528,30 @@ Definition judge_log (c : sccase) : list Z :=
       let '(neg3, emin3, emax3) := log_fold ao bo in
       let e3 := log_exps base emin3 emax3 in
       let deg3 := Qeqb ao bo in
-      let r3 := if deg3 then FL_fail else log_search o e3 false in
-      let rn3 := if deg3 then FL_fail else log_search o e3 true in
+      let r3 := if deg3 then FL_fail else log_search no e3 false in
+      let rn3 := if deg3 then FL_fail else log_search no e3 true in
       let adm3 := fun _ : unit => if le_amb e3 then log_exps_adm base emin3 emax3 else [e3] in
-      let g36 := grp (ticks_exact (log_ticks_from base ao bo o e3 neg3 emin3 emax3 r3) (so_st3 ob) tolv (so_major3 ob) None)
-                     (fun u => negb deg3 && (1 <=? omax)%Z && (so_st3 ob =? 0)%Z &&
-                               existsb (log_ticks_adm1 o base neg3 emin3 emax3 tolv (so_major3 ob) None) (adm3 u)) in
+      let g36 := grp (ticks_exact (log_ticks_from base ao bo no e3 neg3 emin3 emax3 r3) (so_st3 ob) tolv (so_major3 ob) None)
+                     (fun u => negb deg3 && (1 <=? nomax)%Z && (so_st3 ob =? 0)%Z &&
+                               existsb (log_ticks_adm1 no base neg3 emin3 emax3 tolv (so_major3 ob) None) (adm3 u)) in
       let '(x3, y3) := log_nice_from base ao bo e3 neg3 emin3 emax3 rn3 in
       let g37 := grp ((so_nst2 ob =? 0)%Z && xwithin (tolv x3) (XFin x3) (so_nmin2 ob) && xwithin (tolv y3) (XFin y3) (so_nmax2 ob))
                      (fun u => negb deg3 && (so_nst2 ob =? 0)%Z &&
                                match so_nmin2 ob, so_nmax2 ob with
                                | XFin a2, XFin b2 =>
-                                   existsb (fun e' => let '(x', y') := log_nice_from base ao bo e' neg3 emin3 emax3 (log_search o e' true) in
+                                   existsb (fun e' => let '(x', y') := log_nice_from base ao bo e' neg3 emin3 emax3 (log_search no e' true) in
                                                       within (tolv x') x' a2 && within (tolv y') y' b2) (adm3 u)
                                | _, _ => false end) in
       let bl := (1 <=? g30)%Z || (1 <=? g36)%Z || (1 <=? g37)%Z in
-      let g40 := law ((omax <? 3)%Z ||
+      let g40 := law ((nomax <? 3)%Z ||
                       ((so_nst2 ob =? 0)%Z && xwithin (tolv ao) (XFin ao) (so_nmin2 ob) && xwithin (tolv bo) (XFin bo) (so_nmax2 ob))) bl in
-      let g41 := law ((omax <? 3)%Z || negb found ||
+      let g41 := law ((nomax <? 3)%Z || negb found ||
                       match first_last (so_major3 ob) with
                       | Some (f, l) => xwithin (tolv ao) (XFin ao) f && xwithin (tolv bo) (XFin bo) l
                       | None => false
                       end) bl in
       let g43 := law (Qeqb ao bo || (xwithin e12 (XFin 0) (so_map0 ob) && xwithin e12 (XFin 1) (so_map1 ob))) false in
-      let g45 := law ((omax <? 3)%Z || negb found || log_law45 neg emin emax emin3 emax3 (so_major3 ob)) bl in
+      let g45 := law ((nomax <? 3)%Z || negb found || log_law45 neg emin emax emin3 emax3 (so_major3 ob)) bl in
       conclude tag [(g10, 10%Z); (g20, 20%Z); (g21, 21%Z); (g30, 30%Z); (g35, 35%Z); (g36, 36%Z); (g37, 37%Z);
                     (g40, 40%Z); (g41, 41%Z); (g43, 43%Z); (g45, 45%Z)]
   | _, _ => conclude tag [(2%Z, 42%Z)]
